@@ -758,3 +758,52 @@ Example anchored_literal_hypotheses_met :
   map (RX.re_search r) ["error"; "errors"; "noerror"; "terror_x"; ""]%string = [true; false; false; false; false] /\
   map (fun s => containsb s "error") ["error"; "errors"; "noerror"; "terror_x"; ""]%string = [true; true; true; true; false].
 Proof. cbv zeta. split; [reflexivity|]. split; vm_compute; reflexivity. Qed.
+
+(* ---------------------------------------------------------------------------------------------------------------- *)
+(* Round 6: what a rate divides by.  The in-process engine (LRAPlanner / UnwrapAggPlanner finalize, model agg_fin) divides
+   every bucket of rate / bytes_rate / rate over unwrap by float64(Duration.Nanoseconds()) / 1e9, for every float type: *)
+From Coq Require Import QArith.
+From Qryn Require Import model.LogqlPlan model.InternalEngineRate proofs.InternalEngineRateProofs.
+
+Theorem in_process_rate_divides_by_the_range :
+  forall (V : Type) (v0 : V) (vdiv : V -> V -> V) (vltb veqb : V -> V -> bool) (vofZ : Z -> V) (dur : Z) (l : list V),
+    let by_range := map_even V (fun a _ => vdiv a (vdiv (vofZ dur) (vofZ 1000000000))) l in
+    agg_fin V v0 vdiv vltb veqb vofZ (KLra LRate) dur l = by_range /\
+    agg_fin V v0 vdiv vltb veqb vofZ (KLra LBytesRate) dur l = by_range /\
+    agg_fin V v0 vdiv vltb veqb vofZ (KUnwrap URate) dur l = by_range.
+Proof. intros. split; [reflexivity|]. split; reflexivity. Qed.
+Print Assumptions in_process_rate_divides_by_the_range.
+
+(* ... and that number is the range in seconds on BOTH engines: for every range of dur nanoseconds the decimal literal the
+   ClickHouse planner prints behind `toFloat64(COUNT()) / ` (secondsText, C08's model secs_text) is a well-formed literal that
+   denotes exactly dur / 10^9, and so does the in-process divisor read over the rationals (over binary64 both are the
+   correctly rounded value of that one rational: float64(ns) is exact below 2^53, IEEE division rounds correctly). *)
+Theorem rate_divisor_is_the_range_on_both_engines : forall dur, 0 <= dur ->
+  (exists q, dec_q (secs_text dur) = Some q /\ (q == dur # 1000000000)%Q) /\
+  (range_seconds_q dur == dur # 1000000000)%Q.
+Proof. intros dur H. split; [exact (clickhouse_divisor dur H) | exact (in_process_divisor dur)]. Qed.
+Print Assumptions rate_divisor_is_the_range_on_both_engines.
+
+(* the divisor float64(Duration / time.Second) (seed C09-f) is the range exactly for ranges of whole seconds, the divisor
+   float64(Duration.Milliseconds()) / 1000 (the code before /repo 593a272) exactly for ranges of whole milliseconds -- for no
+   other range: a generator that writes [5s] and [1m] only cannot tell the three apart *)
+Theorem truncated_divisor_is_right_only_on_whole_units : forall dur,
+  ((whole_seconds_q dur == range_seconds_q dur)%Q <-> Z.rem dur 1000000000 = 0) /\
+  ((whole_ms_seconds_q dur == range_seconds_q dur)%Q <-> Z.rem dur 1000000 = 0).
+Proof. intros dur. split; [exact (whole_seconds_iff dur) | exact (whole_ms_iff dur)]. Qed.
+Print Assumptions truncated_divisor_is_right_only_on_whole_units.
+
+Theorem whole_second_divisor_refuted : exists dur, 0 < dur /\ ~ (whole_seconds_q dur == range_seconds_q dur)%Q.
+Proof. exact whole_seconds_refuted. Qed.
+Print Assumptions whole_second_divisor_refuted.
+
+Theorem whole_millisecond_divisor_refuted : exists dur, 0 < dur /\ ~ (whole_ms_seconds_q dur == range_seconds_q dur)%Q.
+Proof. exact whole_ms_refuted. Qed.
+Print Assumptions whole_millisecond_divisor_refuted.
+
+(* the ranges of the corpus witnesses: [1500ms] [500ms] [1500us] [999us] [1500ns] and a whole minute *)
+Example rate_divisor_examples :
+  map secs_text [1500000000; 500000000; 1500000; 999000; 1500; 60000000000] = ["1.5"; "0.5"; "0.0015"; "0.000999"; "0.0000015"; "60"]%string /\
+  map (fun d => Qcompare (whole_seconds_q d) (range_seconds_q d)) [1500000000; 500000000; 60000000000] = [Datatypes.Lt; Datatypes.Lt; Datatypes.Eq] /\
+  map (fun d => Qcompare (whole_ms_seconds_q d) (range_seconds_q d)) [1500000000; 1500000; 999000] = [Datatypes.Eq; Datatypes.Lt; Datatypes.Lt].
+Proof. split; [vm_compute; reflexivity|]. split; vm_compute; reflexivity. Qed.
